@@ -669,6 +669,9 @@ def drv_misuse(doc, args, inst):
         'amen_mm_shape': lambda: tt.amen_mm(r([(2, 2), (3, 3)]), r([(2, 2), (1, 3)])),
         'amen_mm_order': lambda: tt.amen_mm(r([(2, 2), (3, 3)]), r([(2, 2)])),
         'cat_dim_range': lambda: tt.cat((r([2, 3]), r([2, 3])), 2),
+        'cat_single_dim_range': lambda: tt.cat((r([2, 3, 4]),), 3),
+        'cat_single_ttm': lambda: tt.cat((r([(2, 2), (3, 3)]),), 0),
+        'cat_single_dim_type': lambda: tt.cat([r([2, 3, 4])], 1.5),
         'cat_dim_negative': lambda: tt.cat((r([2, 3]), r([2, 3])), -3),
         'hadamard_types': lambda: tt.dmrg_hadamard(r([2, 3]), 3),
         'hadamard_kinds': lambda: tt.dmrg_hadamard(r([2, 3]), r([(2, 2), (3, 3)])),
@@ -1168,6 +1171,15 @@ def drv_grad_api(doc, args, inst):
         ref = [x.cores[k].grad for k in (idx if idx is not None else range(3))]
         if len(g) != len(ref) or any(a is None or a.shape != b.shape or not tn.equal(a, b) for a, b in zip(g, ref)):
             msgs.append('grad(val, x, %s) does not return the gradients of the requested cores in the requested order' % idx)
+    elif case in ('grad_list_nested', 'grad_list_nested_rev'):
+        y = tt.random([3, 2], [1, 2, 1], dtype=tn.float64)
+        tt.grad.watch(x); tt.grad.watch(y)
+        ts = [x, y] if case == 'grad_list_nested' else [y, x]
+        g = tt.grad.grad_list(x.sum() + (y * y).sum(), ts, all_in_one=False)
+        if [len(q) for q in g] != [len(t.cores) for t in ts]:
+            msgs.append('grad_list(all_in_one=False) returns lists of lengths %s for tensors with %s cores' % ([len(q) for q in g], [len(t.cores) for t in ts]))
+        elif any(a is None or a.shape != c.shape for q, t in zip(g, ts) for a, c in zip(q, t.cores)):
+            msgs.append('grad_list(all_in_one=False): entries do not have the shapes of the cores')
     elif case in ('grad_of_constant', 'grad_list_of_constant'):
         tt.grad.watch(x)
         v0 = (x * 0).sum()
